@@ -310,6 +310,83 @@ static void m3_finisher (void *a) {
 	nsync_mu_lock (&mu); wsection_begin (); x[2] = 2; wsection_end (); nsync_mu_unlock (&mu);
 }
 
+/* MODE 5: producers and consumers -- conditions that become FALSE again.  Consumers wait (writer mode) for a token in x[0] or x[1]
+   (x[0] through &b0 or the eq-equivalent &b0_alias) and take it; producers add the tokens one per write section; exactly as many
+   tokens are produced as will be consumed.  A consumer that has been woken may find its token taken by a consumer that arrived
+   later and never slept, and then waits AGAIN inside the same nsync_mu_wait call, behind or in front of waiters with other
+   conditions.  Readers wait (reader mode) for x[0] != 0 and for x[2] >= 2 and take nothing: the token that finally satisfies the
+   x[0] readers is produced only after every consumer has finished.  No deadlines: a waiter that is not woken although a section
+   ending in nsync_mu_unlock made its condition true ends the run STUCK (everybody asleep or finished). */
+#define M5_CONSDONE 19
+#define M5_GATE 18
+static int m5_nconsumers;
+static uint32_t m5_gate;
+static void m5_truth (int j, int v) {       /* the truth of the conditions on x[j] changed to v inside this write section */
+	if (j == 0) { vrt_note ("setc %d 0 0 %d", vrt_self (), v); vrt_note ("setc %d 0 1 %d", vrt_self (), v); }
+	if (j == 1) vrt_note ("setc %d 0 2 %d", vrt_self (), v);
+}
+static void m5_consumer (void *a) {
+	int j = (int) (long) a & 1, n = (int) ((long) a >> 1), k;
+	for (k = 0; k < n; k++) {
+		const struct box *arg = j == 1 ? &b1 : vrt_rand (2) ? &b0 : &b0_alias;
+		int (*eq) (const void *, const void *) = arg == &b0_alias ? box_eq : NULL;
+		int r;
+		nsync_mu_lock (&mu); wsection_begin (); wsection_end ();
+		announce_wait (nonzero, arg, eq != NULL, 0, nsync_time_no_deadline, 0);
+		r = nsync_mu_wait_with_deadline (&mu, nonzero, arg, eq, nsync_time_no_deadline, NULL);
+		vrt_note ("mwret %d %d", vrt_self (), r);
+		wsection_begin ();
+		if (r != 0) vrt_fail ("C05", "nsync_mu_wait_with_deadline without deadline or note returned %d", r);
+		if (x[j] == 0) vrt_fail ("C05", "nsync_mu_wait_with_deadline returned 0 but the condition is false (no token in x[%d])", j);
+		x[j]--;
+		if (x[j] == 0) m5_truth (j, 0);
+		if (vrt_rand (2)) vrt_point ("consumed");
+		wsection_end (); nsync_mu_unlock (&mu);
+		vrt_count ("ret_true");
+	}
+	if (vrt_sh_add (M5_CONSDONE, 1) == m5_nconsumers) gate_open (&m5_gate, M5_GATE);
+}
+static void m5_producer (void *a) {
+	int j = (int) (long) a & 1, n = (int) ((long) a >> 1), k;
+	for (k = 0; k < n; k++) {
+		nsync_mu_lock (&mu); wsection_begin ();
+		x[j]++;
+		if (x[j] == 1) m5_truth (j, 1);
+		if (vrt_rand (2)) vrt_point ("produced");
+		wsection_end (); nsync_mu_unlock (&mu);
+		vrt_count ("set");
+	}
+}
+static void m5_reader (void *a) {
+	int which = (int) (long) a;     /* 0: x[0] != 0 through &b0;  1: x[2] >= 2 */
+	int r;
+	nsync_mu_rlock (&mu); vrt_acquired (&mu, 0); vrt_releasing (&mu, 0);
+	announce_wait (which ? two : nonzero, which ? &b2 : &b0, 0, 0, nsync_time_no_deadline, 0);
+	r = nsync_mu_wait_with_deadline (&mu, which ? two : nonzero, which ? &b2 : &b0, NULL, nsync_time_no_deadline, NULL);
+	vrt_note ("mwret %d %d", vrt_self (), r);
+	vrt_acquired (&mu, 0);
+	if (r != 0 || (which ? x[2] < 2 : x[0] == 0)) vrt_fail ("C05", "reader-mode nsync_mu_wait returned %d with its condition %s", r, (which ? x[2] < 2 : x[0] == 0) ? "false" : "true");
+	vrt_releasing (&mu, 0); nsync_mu_runlock (&mu);
+	vrt_count ("ret_true");
+}
+static void m5_two_setter (void *a) {
+	int k;
+	for (k = 0; k < 2; k++) {
+		nsync_mu_lock (&mu); wsection_begin ();
+		x[2]++;
+		if (x[2] == 1) vrt_note ("setc %d 0 3 1", vrt_self ());
+		if (x[2] == 2) vrt_note ("setc %d 1 3 1", vrt_self ());
+		wsection_end (); nsync_mu_unlock (&mu);
+	}
+}
+static void m5_finisher (void *a) {
+	gate_wait (&m5_gate, M5_GATE);          /* every consumer has finished: this token stays */
+	nsync_mu_lock (&mu); wsection_begin ();
+	x[0]++;
+	if (x[0] == 1) m5_truth (0, 1);
+	wsection_end (); nsync_mu_unlock (&mu);
+}
+
 int main (void) {
 	int i, nw = 2 + (int) vrt_rand (3);
 	static char nm[12][8];
@@ -322,6 +399,28 @@ int main (void) {
 		vrt_thread ("S", m3_signaller, NULL);
 		if (vrt_rand (2)) vrt_thread ("R", m3_reader, NULL);
 		vrt_thread ("F", m3_finisher, NULL);
+		vrt_run ();
+		printf ("VRT-END ok\n");
+		return 0;
+	}
+	if (vrt_opt ("MODE", 0) == 5) {
+		int need[2] = { 0, 0 }, nc = 2 + (int) vrt_rand (2), j, nthreads = 0;
+		static char cn[6][8];
+		m5_nconsumers = nc;
+		for (i = 0; i < nc; i++) {
+			int jj = (int) vrt_rand (3) == 0, n = 1 + (int) vrt_rand (2);
+			need[jj] += n;
+			snprintf (cn[i], 8, "c%d", i);
+			vrt_thread (cn[i], m5_consumer, (void *) (long) (jj | (n << 1)));
+		}
+		for (j = 0; j < 2; j++) if (need[j] > 0) {
+			int first = (need[j] > 1 && nc + nthreads < 5) ? 1 + (int) vrt_rand ((uint32_t) need[j] - 1) : need[j];   /* the runtime has room for 11 threads */
+			vrt_thread (j ? "p1a" : "p0a", m5_producer, (void *) (long) (j | (first << 1))); nthreads++;
+			if (need[j] - first > 0) { vrt_thread (j ? "p1b" : "p0b", m5_producer, (void *) (long) (j | ((need[j] - first) << 1))); nthreads++; }
+		}
+		if (vrt_rand (2)) vrt_thread ("r0", m5_reader, (void *) 0L);
+		if (vrt_rand (2)) { vrt_thread ("r2", m5_reader, (void *) 1L); vrt_thread ("s2", m5_two_setter, NULL); }
+		vrt_thread ("fin", m5_finisher, NULL);
 		vrt_run ();
 		printf ("VRT-END ok\n");
 		return 0;
